@@ -523,7 +523,21 @@ def r3(ctx, facts):
     # repeated specifier: the remainder handed to the second strftime part is searched for a specifier; a hit throws
     p2 = [c for c in ctor.calls(r"StringFromTime::init$") if is_this_field(call_obj(c), "_strftime_part_2")]
     ok = False
+    host = ctor
+    if not p2:
+        # the split of the pattern may live in a member function the constructor calls (a helper extracted from it)
+        called = set(short(c.get("callee") or "") for c in ctor.calls())
+        for hf in facts.fns:
+            if hf.config == "A" and hf.cls == TF and not hf.rec.get("ctor") and short(hf.name) in called:
+                hp = [c for c in hf.calls(r"StringFromTime::init$") if is_this_field(call_obj(c), "_strftime_part_2")]
+                if hp:
+                    p2, host = hp, hf
+                    break
     if p2:
+        ctor_, cg_, throws_ = ctor, cg, throws
+        ctor = host
+        cg = host.g
+        throws = cg.pos_of(lambda n: isnode(n) and n.get("k") == "CXXThrowExpr")
         pv = var_ref(p2[0]["args"][0])
         pp = cg.positions(p2[0])
         for bid, b in cg.blocks.items():
@@ -543,9 +557,11 @@ def r3(ctx, facts):
                 lab = "T" if nc[0] == "!=" else "F"
                 if any(p in throws for p in straight_after(cg, bid, lab)) and not cg.exists_path([cg.entry_node], pp, avoid_edges=[(bid, other(lab))]):
                     ok = True
+    if p2:
+        ctor, cg, throws = ctor_, cg_, throws_
     ctx.ob("C13.R3c", "TimestampFormatter::ctor:repeated-specifier-rejected", ok,
            "the part of the pattern after the fractional specifier is searched for a further fractional specifier and a hit throws: "
-           "nothing reaches strftime as a raw '%Q..' (a repeated specifier is 'more than one')", fn=ctor)
+           "nothing reaches strftime as a raw '%Q..' (a repeated specifier is 'more than one')", fn=host)
 
 
 def _literals_through(facts, fn, depth=2):
